@@ -460,11 +460,11 @@ pub fn run(rep: &mut Report) {
     let table = Arc::new(slot_keys());
     let t2 = table.clone();
     crate::c02::run_sharded(rep, n, 16, move |local, sub, rt| {
-        rt.block_on(run_scenario(local, sub, table.clone()));
+        crate::run_guarded!(rt, local, "C14", sub, 1_000_000u64, run_scenario(local, sub, table.clone()));
     });
     let hb: u64 = if thorough { 4000 } else { 200 };
     crate::c02::run_sharded(rep, hb, 16, move |local, sub, rt| {
-        rt.block_on(run_handbuilt(local, sub ^ 0x5151, t2.clone()));
+        crate::run_guarded!(rt, local, "C14", sub, 1_000_000u64, run_handbuilt(local, sub ^ 0x5151, t2.clone()));
     });
     rep.floor("scenarios_completed", if thorough { 300 } else { 30 });
     rep.floor("topology_replies_checked", 500);
